@@ -19,6 +19,29 @@ __all__ = [
 T = typing.TypeVar("T", symtable.SymbolTable, symtable.Function, symtable.Class)
 
 
+def _quirk(symt: symtable.SymbolTable) -> bool:
+    # The symtable module takes every block NAMED "top" for the module block
+    # (`SymbolTable.lookup`): for a user function or class called `top`
+    # `Symbol.is_global()` and `Symbol.is_local()` are both true for every
+    # name the block binds.
+    return symt.get_type() != "module" and symt.get_name() == "top"
+
+
+def _is_global(symt: symtable.SymbolTable, symbol: symtable.Symbol) -> bool:
+    if _quirk(symt) and (
+        symbol.is_assigned() or symbol.is_parameter() or symbol.is_imported()
+    ):
+        # a bound name is global only if the block declares it so
+        return symbol.is_declared_global()
+    return symbol.is_global()
+
+
+def _is_local(symt: symtable.SymbolTable, symbol: symtable.Symbol) -> bool:
+    if _quirk(symt) and (symbol.is_declared_global() or symbol.is_nonlocal()):
+        return False
+    return symbol.is_local()
+
+
 class Namespace(typing.Generic[T]):
     symt: T
     outer_nsp: "Namespace"
@@ -59,7 +82,7 @@ class Namespace(typing.Generic[T]):
         while not isinstance(nsp, NamespaceGlobal):
             if isinstance(nsp, NamespaceFunction):
                 try:
-                    return nsp.symt.lookup(name).is_global()
+                    return _is_global(nsp.symt, nsp.symt.lookup(name))
                 except KeyError:
                     pass
             nsp = nsp.outer_nsp
@@ -77,7 +100,7 @@ class Namespace(typing.Generic[T]):
             if not isinstance(nsp, NamespaceFunction):
                 continue
             try:
-                shadowed = nsp.symt.lookup(name).is_local()
+                shadowed = _is_local(nsp.symt, nsp.symt.lookup(name))
             except KeyError:
                 shadowed = False
             if shadowed:
@@ -178,7 +201,7 @@ class NamespaceFunction(Namespace[symtable.Function]):
                     outer_symbol.is_assigned()
                     or outer_symbol.is_imported()
                     or outer_symbol.is_parameter()
-                    and not outer_symbol.is_global()
+                    and not _is_global(outer.symt, outer_symbol)
                 ):
                     outer.inner_nonlocal_names.add(nonlocal_free)
                     self.outer_nonlocal_map[nonlocal_free] = outer
@@ -295,7 +318,7 @@ class NamespaceClass(Namespace[symtable.Class]):
                     outer_symbol.is_assigned()
                     or outer_symbol.is_imported()
                     or outer_symbol.is_parameter()
-                    and not outer_symbol.is_global()
+                    and not _is_global(outer.symt, outer_symbol)
                 ):
                     outer.inner_nonlocal_names.add(nonlocal_free)
                     self.outer_nonlocal_map[nonlocal_free] = outer
@@ -378,7 +401,7 @@ class NamespaceClass(Namespace[symtable.Class]):
                 slice=Constant(value=name),
                 ctx=Load(),
             )
-        elif symbol.is_global():
+        elif _is_global(self.symt, symbol):
             return self.get_load_declared_global(name)
         else:
             # a class member; until the class body has bound it, Python
@@ -417,7 +440,7 @@ def update_globals_from_lambda_or_comp(symt: symtable.Function, stack: list[Name
     while comp_stack:
         symt = comp_stack.pop()
         for symbol in symt.get_symbols():
-            if symbol.is_global():
+            if _is_global(symt, symbol):
                 _globals.add(symbol.get_name())
         for child_symt in symt.get_children():
             assert isinstance(child_symt, symtable.Function)
